@@ -363,7 +363,8 @@ def check_config(ctx, case):
             tc = config["sheets"][si]["tables"][ti]
             labels = tc["col_labels" if axis == "col" else "row_labels"]
             other = tc["row_labels" if axis == "col" else "col_labels"]
-            if str(idx) in labels and new != "" and new not in other.values():
+            hidden = tc.get("header_merge") and axis == "col" and idx == tc["header_merge"][2]   # a write there is refused
+            if str(idx) in labels and new != "" and new not in other.values() and not hidden:
                 cfg2 = copy.deepcopy(config)
                 t = d2.sheets[si].tables[ti]
                 with warnings.catch_warnings():
@@ -435,7 +436,8 @@ def check_config(ctx, case):
             tcn = cfg_now["sheets"][si]["tables"][ti]
             n, h = (tcn["cols"], tcn["hc"]) if axis == "col" else (tcn["rows"], tcn["hr"])
             ax = 1 if axis == "col" else 0
-            if h <= n - 1:
+            # (a table with merged label cells is left alone: structural edits do not move merges - the open C12 finding)
+            if h <= n - 1 and not tcn.get("header_merge"):
                 k = h + int(frac * (n - h))
                 # formulas hosted in the table at or after the insertion point move with their cells (their relative
                 # references then denote other cells): they are left out of this phase
